@@ -56,7 +56,7 @@ all on the same line; the column moves by `sz'` plus the tab adjustment. -/
 theorem escape_spec (s : LexSt) (sz : Nat) (t : Char) (k : Nat)
     (hp : peek1 s.rest 0 = some ('\\', sz)) (hq : peek1 s.rest sz = some (t, k)) (ht : t ≠ '\n') :
     let r := escape s sz t k
-    1 ≤ r.2.1 ∧ r.2.1 ≤ s.rest.length ∧ (∀ d ∈ r.2.2.1, HasHl d) ∧
+    1 ≤ r.2.1 ∧ r.2.1 ≤ s.rest.length ∧ (∀ d ∈ r.2.2.1, DiagAt s d) ∧
     advPos (s.line, s.col) (s.rest.take r.2.1) = (s.line, s.col + r.2.2.2 + r.2.1) := by
   obtain ⟨hsz1, hszlen, _⟩ := peek1_spec hp
   simp only [Nat.zero_add] at hszlen
@@ -106,7 +106,9 @@ theorem escape_spec (s : LexSt) (sz : Nat) (t : Char) (k : Nat)
       simp only [takeWhileFrom]
       by_cases hds : ((s.rest.drop (sz + 1)).takeWhile isHexDigit).isEmpty = true
       · simp only [hds, ↓reduceIte]
-        exact ⟨Nat.le_add_left 1 sz, hlen1, by intro d hd; simp at hd; subst hd; exact hasHl_mkDiag _ _ _ _, clean1 hrc⟩
+        refine ⟨Nat.le_add_left 1 sz, hlen1, ?_, clean1 hrc⟩
+        intro d hd; simp at hd; subst hd
+        exact DiagAt.ahead sz (mkDiag_highlights _ _ _) (by omega) hcl (by simp)
       · -- hex digits
         simp only [hds, Bool.false_eq_true, ↓reduceIte]
         have hpre : (s.rest.drop (sz + 1)).takeWhile isHexDigit <+: s.rest.drop (sz + 1) := List.takeWhile_prefix _
@@ -128,7 +130,7 @@ theorem escape_spec (s : LexSt) (sz : Nat) (t : Char) (k : Nat)
         simp [List.length_take]; omega
       · -- unknown escape
         refine ⟨Nat.le_trans hsz1 (Nat.le_add_right _ _), hklen,
-          by intro d hd; simp at hd; subst hd; exact hasHl_mkDiag _ _ _ _, ?_⟩
+          by intro d hd; simp at hd; subst hd; exact DiagAt.ahead sz (mkDiag_highlights _ _ _) (by omega) hcl (by simp), ?_⟩
         by_cases htab : t = '\t'
         · subst htab
           have hk : k = 1 := by
@@ -168,7 +170,7 @@ theorem escOf_spec (ue : Bool) (s : LexSt) (c : Char) (sz : Nat) (hp : peek1 s.r
     escOf ue s c sz = ([c], sz, [], 0) ∨
     (c = '\\' ∧ (escOf ue s c sz).1.head? = some '\\' ∧
       1 ≤ (escOf ue s c sz).2.1 ∧ (escOf ue s c sz).2.1 ≤ s.rest.length ∧
-      (∀ d ∈ (escOf ue s c sz).2.2.1, HasHl d) ∧
+      (∀ d ∈ (escOf ue s c sz).2.2.1, DiagAt s d) ∧
       advPos (s.line, s.col) (s.rest.take (escOf ue s c sz).2.1)
         = (s.line, s.col + (escOf ue s c sz).2.2.2 + (escOf ue s c sz).2.1)) := by
   unfold escOf
